@@ -259,6 +259,63 @@ def draw_doc(rng):
     return {'editions': editions}
 
 
+def other_digits(num, rng):
+    '''another numeral of exactly the same width (same sign, same exponent)'''
+    mant, exp = num.split('e')
+    out = []
+    for pos, cha in enumerate(mant):
+        if cha.isdigit():
+            lead = not any(c.isdigit() for c in mant[:pos])
+            out.append(str(rng.randint(1, 9)) if lead else str(rng.randint(0, 9)))
+        else:
+            out.append(cha)
+    return ''.join(out) + 'e' + exp
+
+
+def same_length_variant(doc, rng):
+    '''the same layout with other digits in the printed values (bounds, names and
+    structure kept): a listing of exactly the same byte length and another content'''
+    new = json.loads(json.dumps(doc))
+    for edi in new['editions']:
+        edi['time'] = int(''.join(str(rng.randint(1, 9)) for _ in str(edi['time'])))
+        for resp in edi['responses']:
+            for zone in resp['zones']:
+                for stp in zone['steps']:
+                    for row in stp['rows']:
+                        row[2:] = [other_digits(x, rng) for x in row[2:]]
+                    if stp['integ'] is not None:
+                        stp['integ'] = [other_digits(x, rng) for x in stp['integ']]
+        for mesh in edi.get('meshes', []):
+            for stp in mesh['steps']:
+                for rng_ in stp['ranges']:
+                    rng_['cells'] = [[other_digits(x, rng) for x in c] for c in rng_['cells']]
+                if stp['eint'] is not None:
+                    stp['eint'] = [[other_digits(x, rng) for x in c] for c in stp['eint']]
+                stp['integ'] = [other_digits(x, rng) for x in stp['integ']]
+        for gen in edi['generic']:
+            gen['score'], gen['sigma'] = other_digits(gen['score'], rng), other_digits(gen['sigma'], rng)
+    return new
+
+
+def draw_unconverged_doc(rng):
+    '''a document in which spectra by time steps have NOT YET CONVERGED integrated
+    results in some steps while the first printed step is converged'''
+    for _ in range(200):
+        doc = draw_doc(rng)
+        found = False
+        for edi in doc['editions']:
+            for resp in edi['responses']:
+                for zone in resp['zones']:
+                    if zone['with_time'] and len(zone['steps']) >= 2:
+                        zone['steps'][0]['integ'] = [numeral(rng), numeral(rng, 'sigma')]
+                        for k in rng.sample(range(1, len(zone['steps'])), rng.randint(1, len(zone['steps']) - 1)):
+                            zone['steps'][k]['integ'] = None
+                        found = True
+        if found:
+            return doc
+    return doc
+
+
 def draw_mesh(rng, ires):
     '''a mesh score: cells x energy ranges x time steps, each axis printed upwards
     or downwards independently, with or without the energy-integrated mesh'''
@@ -1471,7 +1528,8 @@ def run_histories(ctx, nhist):
                       'values': [rng.uniform(-3, 3) for _ in order]}
             contents = [first, second if rng.random() < 0.8 else draw_user(rng)]
         else:
-            contents = [draw_doc(rng), draw_doc(rng)]
+            first = draw_doc(rng)
+            contents = [first, same_length_variant(first, rng) if rng.random() < 0.6 else draw_doc(rng)]
         case = {'kind': kind, 'id': num, 'contents': contents, 'steps': rng.choice(shapes)}
         before = len(ctx.violations)
         play_history(ctx, case, rng)
@@ -1484,6 +1542,154 @@ TEXT_CODES = {1: 'the model printer (C10/Text.v print_block) and the generator p
               2: 'the generated document is not well-formed (wf_doc): the round-trip theorem does not apply',
               3: 'the model parser rejects the text of the block',
               4: 'the model parser and the real pyparsing grammar extract different rows from the text'}
+
+
+# --------------------------------------------------------------------------
+# the same files read by an interpreter started with -O (assert statements are
+# not executed): results and metadata must be exactly those of the normal run
+
+def plain_meta(obj):
+    if isinstance(obj, dict):
+        return {str(k): plain_meta(v) for k, v in sorted(obj.items(), key=lambda kv: str(kv[0]))}
+    if isinstance(obj, (list, tuple)):
+        return [plain_meta(x) for x in obj]
+    if isinstance(obj, np.ndarray):
+        return ['ndarray', list(obj.shape), str(obj.dtype),
+                [plain_meta(x) for x in obj.reshape(-1).tolist()]]
+    if isinstance(obj, (np.floating, float)):
+        return ['f', fbits(obj)]
+    if isinstance(obj, (np.integer, int, bool, str, type(None))):
+        return obj if not isinstance(obj, np.integer) else int(obj)
+    return repr(obj)
+
+
+def dump_dataset(dset):
+    val = np.asarray(dset.value)
+    out = {'shape': list(val.shape), 'what': dset.what, 'name': dset.name, 'dtype': str(val.dtype)}
+    try:
+        out['value'] = [fbits(x) for x in val.reshape(-1)]
+        out['error'] = [fbits(x) for x in np.asarray(dset.error).reshape(-1)]
+    except (TypeError, ValueError):
+        out['value'], out['error'] = repr(val.tolist()), repr(np.asarray(dset.error).tolist())
+    out['bins'] = {k: plain_meta(np.asarray(v)) for k, v in dset.bins.items()}
+    return out
+
+
+def dump_browser(browser):
+    items = []
+    for res in browser.content:
+        meta = {k: plain_meta(v) for k, v in res.items() if k != 'results'}
+        data = {k: (dump_dataset(d) if hasattr(d, 'value') and hasattr(d, 'bins') else plain_meta(d))
+                for k, d in res['results'].items()}
+        items.append({'meta': meta, 'data': data})
+    return {'globals': plain_meta(browser.globals), 'items': items}
+
+
+def dump_file(path):
+    '''everything read from one file, canonical and JSON-serialisable'''
+    try:
+        if path.endswith('.hdf'):
+            from valjean.eponine.apollo3.hdf5_reader import Reader
+            from valjean.eponine.apollo3.hdf5_picker import Picker
+            browser = Reader(path).to_browser()
+            out = {'reader': dump_browser(browser), 'picks': []}
+            pick = Picker(path)
+            for res in browser.content:
+                if 'zone' not in res:
+                    continue
+                name = res['result_name']
+                stored = name if name == 'concentration' else next(
+                    (k for k in (pick.results(output=res['output'], zone=res['zone'],
+                                              isotope=res.get('isotope')))
+                     if k.lower() == name), name)
+                try:
+                    pds = pick.pick_standard_value(output=res['output'], zone=res['zone'],
+                                                   result_name=stored, isotope=res.get('isotope'))
+                    out['picks'].append(dump_dataset(pds))
+                except Exception as exc:  # noqa
+                    out['picks'].append(type(exc).__name__)
+            pick.close()
+            return out
+        from valjean.eponine.tripoli4.parse import Parser
+        par = Parser(path)
+        return {'editions': {str(b): dump_browser(par.parse_from_number(b).to_browser())
+                             for b in par.batch_numbers()}}
+    except Exception as exc:  # noqa
+        return {'raises': type(exc).__name__}
+
+
+def first_difference(a, b, where=''):
+    if type(a) is not type(b):
+        return f'{where}: {str(a)[:80]} / {str(b)[:80]}'
+    if isinstance(a, dict):
+        for k in sorted(set(a) | set(b)):
+            if k not in a or k not in b:
+                return f'{where}/{k}: present in one run only'
+            diff = first_difference(a[k], b[k], f'{where}/{k}')
+            if diff:
+                return diff
+        return None
+    if isinstance(a, list):
+        if len(a) != len(b):
+            return f'{where}: {len(a)} / {len(b)} elements'
+        for k, (x, y) in enumerate(zip(a, b)):
+            diff = first_difference(x, y, f'{where}[{k}]')
+            if diff:
+                return diff
+        return None
+    return None if a == b else f'{where}: {str(a)[:80]} / {str(b)[:80]}'
+
+
+def start_optimised(ctx, nt4, nmesh, nap3):
+    '''write a sample of generated files and start `python -O` on them'''
+    import subprocess
+    import sys
+    rng = ctx.rng
+    head = header(common.REPO)
+    files = []
+    for num in range(nt4 + nmesh):
+        doc = draw_doc(rng) if num < nt4 else draw_mesh_doc(rng)
+        if num < nt4 and num % 2:
+            doc = draw_unconverged_doc(rng)
+        path = os.path.join(ctx.wd(), f'opt_{num}.res')
+        with open(path, 'w', encoding='utf-8') as fil:
+            fil.write(listing_text(doc, head))
+        files.append((path, {'kind': 't4opt', 'doc': doc}))
+    for num in range(nap3):
+        tree = draw_tree(rng)
+        path = os.path.join(ctx.wd(), f'opt_{num}.hdf')
+        write_hdf(tree, path)
+        files.append((path, {'kind': 'ap3opt', 'tree': tree}))
+    env = dict(os.environ, PYTHONPATH=common.REPO + os.pathsep + os.path.dirname(os.path.abspath(__file__)),
+               VERIF_REPO=common.REPO)
+    env.pop('PYTHONOPTIMIZE', None)
+    proc = subprocess.Popen([sys.executable, '-O', '-W', 'ignore', os.path.abspath(__file__)]
+                            + [p for p, _ in files], stdout=subprocess.PIPE, stderr=subprocess.PIPE, env=env)
+    return proc, files
+
+
+def finish_optimised(ctx, proc, files):
+    try:
+        out, err = proc.communicate(timeout=300)
+        child = json.loads(out.decode('utf-8'))
+    except Exception as exc:  # noqa
+        proc.kill()
+        ctx.oracle_failure(f'the interpreter started with -O does not deliver the results ({type(exc).__name__})',
+                           {'kind': 't4opt'}, key='optimised-interpreter-fails')
+        return
+    if child.get('optimised') is not True:
+        raise common.CoqError('the child interpreter was not started with -O')
+    for path, case in files:
+        mine = json.loads(json.dumps(dump_file(path)))
+        theirs = child['files'].get(path)
+        ctx.count('files_also_read_under_python_O')
+        diff = first_difference(mine, theirs, os.path.basename(path))
+        if diff:
+            ctx.oracle_failure('an interpreter started with -O reads other results or metadata than the normal '
+                               f'one (normal / -O) :: {diff}', case, key='optimised-interpreter-differs')
+        ctx.case_seen({'kind': case['kind'], 'file': os.path.basename(path)}, 'raises' not in mine,
+                      sample_every=50)
+        os.unlink(path)
 
 
 def parse_codes(out):
@@ -1525,10 +1731,12 @@ def run(ctx):
         ctx.count('t4_grammar_elements_not_found')
     t4cases, t4index, txcases, txindex = run_t4(ctx, 60 if quick else 1500, tap)
     shcases, shindex = run_shipped(ctx, tap) if tap is not None else ([], [])
+    optproc, optfiles = start_optimised(ctx, *((10, 3, 4) if quick else (120, 40, 40)))
     mcases, mindex = run_t4_mesh(ctx, 24 if quick else 400)
     t4cases, t4index = t4cases + mcases, t4index + mindex
     apcases, apindex = run_ap3(ctx, 40 if quick else 500)
     run_histories(ctx, 16 if quick else 200)
+    finish_optimised(ctx, optproc, optfiles)
     shards, indexes = [], []
     per = 8
     for k in range(0, len(txcases), per):
@@ -1613,7 +1821,23 @@ def replay(ctx, path):
     data = json.load(open(path))
     case = data['case']
     wdir = ctx.wd()
-    if case.get('kind') in ('ap3hist', 'userhist', 't4hist'):
+    if case.get('kind') in ('t4opt', 'ap3opt'):
+        import subprocess
+        import sys
+        fpath = os.path.join(wdir, 'replay' + ('.res' if case['kind'] == 't4opt' else '.hdf'))
+        if case['kind'] == 't4opt':
+            with open(fpath, 'w', encoding='utf-8') as fil:
+                fil.write(listing_text(case['doc'], header(common.REPO)))
+        else:
+            write_hdf(case['tree'], fpath)
+        env = dict(os.environ, PYTHONPATH=common.REPO + os.pathsep + os.path.dirname(os.path.abspath(__file__)),
+                   VERIF_REPO=common.REPO)
+        out = subprocess.run([sys.executable, '-O', '-W', 'ignore', os.path.abspath(__file__), fpath],
+                             capture_output=True, env=env).stdout
+        theirs = json.loads(out.decode('utf-8'))['files'][fpath]
+        mine = json.loads(json.dumps(dump_file(fpath)))
+        print('normal interpreter / python -O, first difference:', first_difference(mine, theirs, 'file'))
+    elif case.get('kind') in ('ap3hist', 'userhist', 't4hist'):
         import random
         print('history: (path, content) steps', case['steps'], 'over', len(case['contents']), 'contents')
         play_history(ctx, case, random.Random(0))
@@ -1669,3 +1893,15 @@ def replay(ctx, path):
     for vio in ctx.violations:
         print('oracle:', vio[1])
     return 0
+
+
+if __name__ == '__main__':
+    # child of start_optimised: python -O c10.py <files>
+    import logging
+    import sys as _sys
+    logging.disable(logging.CRITICAL)
+    common.import_repo()
+    _flag = True
+    assert not (_flag := False) or True        # executed only without -O
+    _sys.stdout.write(json.dumps({'optimised': _flag and _sys.flags.optimize > 0,
+                                  'files': {p: dump_file(p) for p in _sys.argv[1:]}}))
